@@ -23,12 +23,12 @@ def mc_for(prop, tier, wd):
         mod, invs, acts = MC[prop]
         if mod == "MC_TropBound":
             consts = (dict(V=2, EMIN=2, EMAX=3, LMAX=2, DD=1, PK=1, MS={0, 1}, XS={1, 2, 3}) if tier == "quick" else
-                      dict(V=3, EMIN=2, EMAX=4, LMAX=3, DD=1, PK=1, MS={0, 1}, XS={1, 2, 3}))
+                      dict(V=3, EMIN=2, EMAX=3, LMAX=2, DD=1, PK=1, MS={0, 1}, XS={1, 2, 3}))
         else:
             consts = (dict(V=2, EMIN=1, EMAX=3, LMAX=2, DD=1, XS={1, 2}, PS={0, 1}, MS={1}, CS={1}, KS={1}) if tier == "quick" else
-                      dict(V=3, EMIN=1, EMAX=3, LMAX=2, DD=2, XS={1, 2, 3}, PS={0, 1}, MS={0, 1}, CS={0, 1}, KS={1}))
+                      dict(V=2, EMIN=1, EMAX=3, LMAX=2, DD=1, XS={1, 2, 3}, PS={0, 1}, MS={0, 1}, CS={1}, KS={1}))
         cfg = core.cfg_text(constants=consts, invariants=invs)
-        r = core.tlc(mod, cfg, mod.lower(), wd, workers=12, timeout=900 if tier == "quick" else 10800,
+        r = core.tlc(mod, cfg, mod.lower(), wd, workers=12, timeout=900 if tier == "quick" else 2400,
                      allow_timeout=(tier != "quick"))
         if r.violated:
             raise core.ToolError("specification-level check failed: %s violates %s\n%s" % (mod, r.violated, r.out[-2000:]))
